@@ -561,7 +561,7 @@ func (v *fnVC) appendOp(in ssa.CallInstruction, st *State) *T {
 		placeArr := srcArr
 		for k, el := range elems {
 			grownArr = sapp("store", grownArr, sapp("bvadd", sapp("sl_len", s.S), bvLit(int64(k), 64)), el.S)
-			placeArr = sapp("store", placeArr, sapp("bvadd", sapp("sl_off", s.S), sapp("bvadd", sapp("sl_len", s.S), bvLit(int64(k), 64))), el.S)
+			placeArr = sapp("store", placeArr, sapp("sidx", sapp("sl_off", s.S), sapp("bvadd", sapp("sl_len", s.S), bvLit(int64(k), 64))), el.S)
 		}
 		useGrown := sapp("not", sapp("=", sapp("sl_arr", r.S), sapp("sl_arr", s.S)))
 		h2 := sapp("ite", useGrown, sapp("store", h.S, fa.S, grownArr), sapp("store", h.S, sapp("sl_arr", s.S), placeArr))
